@@ -44,6 +44,12 @@ func titleProvenance(p *core.Program, v ssa.Value, seen map[ssa.Value]bool) stri
 		return ""
 	case *ssa.Slice:
 		return titleProvenance(p, x.X, seen)
+	case *ssa.Extract:
+		// before/after of strings.Cut are substrings of its first argument
+		if call, ok := x.Tuple.(*ssa.Call); ok && x.Index <= 1 && core.IsCallTo(call, "strings.Cut", "strings.CutPrefix", "strings.CutSuffix") {
+			return titleProvenance(p, call.Call.Args[0], seen)
+		}
+		return fmt.Sprintf("%T %s", v, c.Of(v))
 	case *ssa.BinOp:
 		if x.Op == token.ADD {
 			// concatenation: allowed only with whitespace
@@ -67,7 +73,7 @@ func titleProvenance(p *core.Program, v ssa.Value, seen map[ssa.Value]bool) stri
 				return ""
 			}
 			return "text of " + a
-		case "strings.TrimSpace", "strings.Fields", "strings.ToValidUTF8":
+		case "strings.TrimSpace", "strings.Fields", "strings.ToValidUTF8", "strings.TrimPrefix", "strings.TrimSuffix", "strings.Trim", "strings.TrimLeft", "strings.TrimRight":
 			return titleProvenance(p, x.Call.Args[0], seen)
 		case "strings.Join":
 			if s, ok := core.ConstString(x.Call.Args[1]); !ok || strings.TrimSpace(s) != "" {
